@@ -1,5 +1,5 @@
 import itertools
-from harness.common import Prop, canon, use_repo_src
+from harness.common import Prop, canon, use_repo_src, scale
 from harness.gen_text import err_tag
 
 
@@ -61,7 +61,7 @@ class C03(Prop):
         yield 'exhaustive', cases
         big = []
         names = ['a', 'b', 'c', 'd', 'e', 'f', 'api', 'Api', '']
-        for _ in range(1500 if tier == 'quick' else 40000):
+        for _ in range(1500 if tier == 'quick' else scale(100000)):
             def sel():
                 r = rng.random()
                 if r < 0.4:
@@ -78,7 +78,7 @@ class C03(Prop):
         never named) must build and expose exactly the non-injected ports; selection faults must be
         rejected with the configuration error and produce no files"""
         from harness import gen_build as G
-        n = 60 if tier == 'quick' else 3000
+        n = 60 if tier == 'quick' else scale(6000)
         out = []
         sel_faults = ('unknown-port-name', 'provides-name-on-requires-side', 'named-under-both', 'all-with-names',
                       'uncovered-requires-port', 'mixed-provides', 'uncovered-provides-port')
